@@ -39,14 +39,19 @@ SetupSteps == [i \in 1..Len(TokNames) |->
 
 Init == /\ w = NewWorld
         /\ obs = FoldObs(ObsReset(Cfg), SetupEvents, 1)
-        /\ ctl = [steps |-> 0, tag |-> 1, healed |-> FALSE, rounds |-> 0]
+        /\ ctl = [steps |-> 0, tag |-> 1, healed |-> FALSE, rounds |-> 0, rel |-> <<>>]
         /\ hist = IF Export THEN SetupSteps ELSE <<>>
 
 Can == ctl.steps < MaxSteps /\ ~ctl.healed
+\* ctl.rel: the slots released so far, in order.  It is part of the state (and of every VIEW) so that behaviours that free the
+\* same slots in a different ORDER are explored and exported as different behaviours: a slip that confuses slot indices
+\* (seeded change C11/b) only shows for one of the orders, and the exported path of a state is only one of the ways to reach it.
+Released(w0, w1) == SortedIds({i \in 1..Len(w0.slots) : w0.slots[i].used /\ (i > Len(w1.slots) \/ ~w1.slots[i].used)})
+Stepped(w1) == [ctl EXCEPT !.steps = @ + 1, !.rel = @ \o Released(w, w1)]
 Apply(r, step) == /\ w' = r.w
                   /\ obs' = ObsStep(obs, r.ev)
                   /\ hist' = IF Export THEN Append(hist, step) ELSE hist
-                  /\ ctl' = [ctl EXCEPT !.steps = @ + 1]
+                  /\ ctl' = Stepped(r.w)
 \* emitted datagrams are referred to by name ("e<k>") so that the schedule stays meaningful if the code emits differently
 EName(k) == "e" \o ToString(k)
 NextName == EName(Len(w.net) + 1)
@@ -79,7 +84,7 @@ AExchange(c, dt) ==
        IN /\ w' = r3.w
           /\ obs' = FoldObs(obs, evs, 1)
     /\ hist' = IF Export THEN Append(hist, [a |-> "exchange", c |-> c, dt |-> dt, as |-> NextName]) ELSE hist
-    /\ ctl' = [ctl EXCEPT !.steps = @ + 1]
+    /\ ctl' = Stepped(w')
 
 ACPayload(c) == /\ Can /\ "payload" \in Calls /\ ctl.tag <= 3
                 /\ w' = DoCPayload(w, c, 100 + ctl.tag, 20).w /\ obs' = ObsStep(obs, DoCPayload(w, c, 100 + ctl.tag, 20).ev)
@@ -100,7 +105,7 @@ ACLeave(c) ==
        IN /\ w' = r2.w
           /\ obs' = FoldObs(obs, <<r1.ev, r2.ev>>, 1)
     /\ hist' = IF Export THEN hist \o <<[a |-> "cdisconnect", c |-> c, as |-> NextName], [a |-> "sdeliver", d |-> NextName]>> ELSE hist
-    /\ ctl' = [ctl EXCEPT !.steps = @ + 1]
+    /\ ctl' = Stepped(w')
 
 (***************************************************************************)
 (* Bounded liveness (C18_Connects): at any point of the fault phase the    *)
@@ -145,7 +150,7 @@ Coarse == "deliver" \notin Calls
 View == IF Coarse
         THEN <<[i \in 1..Len(w.slots) |-> [w.slots[i] EXCEPT !.lastRecv = 0, !.lastSend = 0]],
                [a \in DOMAIN w.pending |-> w.pending[a].tok], [i \in 1..Len(w.entries) |-> <<w.entries[i].tok, w.entries[i].addr>>], w.consumed, w.maxc,
-               [c \in DOMAIN w.cl |-> <<w.cl[c].state, w.cl[c].reason, w.cl[c].seq>>], obs.sess, obs.flags, ctl.steps>>
+               [c \in DOMAIN w.cl |-> <<w.cl[c].state, w.cl[c].reason, w.cl[c].seq>>], obs.sess, obs.flags, ctl.steps, ctl.rel>>
         ELSE <<w, obs, ctl>>
 
 \* ---- named configurations ----
